@@ -111,6 +111,18 @@ def run(res, tier, seed):
                         res.violation("oracle", f"{bad['problem']} on {m2!r} (converted after its look-alike {m!r})", dict(bad, converted_before=ast_json(ast)))
             except Exception as e:
                 res.count("lookalike_build_error:" + type(e).__name__)
+    # wide stream: leaves far beyond the 16-bit default (big-M sums beyond 32 bits); too large to enumerate, so only
+    # completeness (no satisfying configuration is lost) and the correspondence apply
+    for ast, m in gen_valid(rng, 60 if tier == "quick" else 600, res, depth_max=3, want=lambda m: plain(m), big=0.6, huge=0.7, int_leaves=0.7):
+        res.count("wide_stream")
+        bad = complete_model(res, ast, m, rng, 12 if tier == "quick" else 30, 0)
+        if bad:
+            res.violation("oracle", f"{bad['problem']} on {m!r}", bad)
+        cols, rows = poly_obs(m, True)
+        if max([abs(v) for r in rows for v in r] + [0]) >= 2 ** 31:
+            res.count("wide_stream_entry_beyond_32_bits")
+        cases.append((lambda it, m=m, cols=cols, rows=rows:
+                      f"(true, {dump(m, it)}, {lst(f'({it.s(c)}, ({z(lo)}, {z(hi)}))' for c, (lo, hi) in cols)}, {lst(lst(z(v) for v in r) for r in rows)})", (ast,)))
     n, failing, errs = run_case_shards("C02", "encode", "", "bool * prop * list (ident * (Z * Z)) * list (list Z)", "check_encode", cases)
     res.corr_cases += n; res.evaluations += n
     for e in errs:
